@@ -26,7 +26,8 @@ Inductive lev :=
 | LGot (w name : nat) (x : Z)     (* a getter for `name` returned x *)
 | LTimeout (w name : nat)
 | LUnsub (name : nat) (s : sub) (found : bool)
-| LSub (name : nat) (s : sub).
+| LSub (name : nat) (s : sub)
+| LWait (w name : nat).            (* a getter found no value and waits *)
 
 Record dtask := mkTask {
   t_id : nat; t_name : nat; t_cur : Z; t_todo : list sub;
@@ -157,7 +158,7 @@ Definition estep (sc : script) (st : est) (op : eop) : est :=
     | None =>
       mkEst (subs st) (data st) (tasks st)
             (waiters st ++ [mkWaiter w n (match timeout with Some d => Some (now st + d)%Z | None => None end)])
-            (now st) (S w) (log st)
+            (now st) (S w) (LWait w n :: log st)
     end
   | Advance dt =>
     let t' := (now st + Z.max 0 dt)%Z in
